@@ -42,6 +42,7 @@ type vsConfig struct {
 	converters []string
 	// step weights
 	wImport, wTag, wMark, wConv, wView, wDeliver, wReset int
+	wRecreate                                              int
 }
 
 type vsView struct {
@@ -84,6 +85,7 @@ type vsRun struct {
 	maybeFiles        map[string]bool // unused
 	maybeQueue        []string        // import queue when a crash copy was taken with an import job parked
 	startedHeld       int             // jobs that were held before their body and started later
+	lastDefs          map[string]string
 	outOfOrder        bool            // a capture arrived before an earlier one
 	convMayBeStale    bool            // an import was delivered while a converter job was in flight: the job works on an older copy of the index files, its output for changed streams is dropped when its completion is delivered
 }
@@ -248,14 +250,21 @@ func (r *vsRun) stepTag() {
 	case "add":
 		name := rapid.SampledFrom(vsTagNames).Draw(rt, "tagname")
 		def := r.genDef(name, existing)
+		// deleting a tag and adding it again with the very same definition while its tagging job is in flight
+		// makes the job's result look current
+		if old, ok := r.lastDefs[name]; ok && rapid.Bool().Draw(rt, "samedef") {
+			def = old
+		}
 		if r.apiCall(fmt.Sprintf("AddTag(%s,%q)", name, def), func() error { return r.e.mgr.AddTag(name, "#fff", def) }) == nil {
 			r.noteInvalidation()
+			r.lastDefs[name] = def
 		}
 	case "query":
 		name := rapid.SampledFrom(existing).Draw(rt, "tagname")
 		def := r.genDef(name, existing)
 		if r.apiCall(fmt.Sprintf("UpdateTag(%s,query=%q)", name, def), func() error { return r.e.mgr.UpdateTag(name, UpdateTagOperationUpdateQuery(def)) }) == nil {
 			r.noteInvalidation()
+			r.lastDefs[name] = def
 		}
 	case "del":
 		name := rapid.SampledFrom(existing).Draw(rt, "tagname")
@@ -263,6 +272,44 @@ func (r *vsRun) stepTag() {
 	case "color":
 		name := rapid.SampledFrom(existing).Draw(rt, "tagname")
 		r.apiCall(fmt.Sprintf("UpdateTag(%s,color)", name), func() error { return r.e.mgr.UpdateTag(name, UpdateTagOperationUpdateColor("#123")) })
+	}
+}
+
+// stepRecreate deletes a tag and adds it again with the very same definition, then adds a tag referencing it.
+// When the tagging job of the deleted tag is still in flight its result looks current for the new tag.
+func (r *vsRun) stepRecreate() {
+	rt := r.rt
+	var cands []string
+	var defs map[string]string
+	_ = r.e.inLoop(func() {
+		defs = map[string]string{}
+		for n, t := range r.e.mgr.tags {
+			defs[n] = t.definition
+			if len(t.referencedBy) == 0 {
+				cands = append(cands, n)
+			}
+		}
+	})
+	sort.Strings(cands)
+	if len(cands) == 0 {
+		rt.Skip("no unreferenced tag")
+	}
+	name := rapid.SampledFrom(cands).Draw(rt, "recreate")
+	def := defs[name]
+	if r.apiCall(fmt.Sprintf("DelTag(%s)", name), func() error { return r.e.mgr.DelTag(name) }) != nil {
+		return
+	}
+	if r.apiCall(fmt.Sprintf("AddTag(%s,%q)", name, def), func() error { return r.e.mgr.AddTag(name, "#fff", def) }) != nil {
+		return
+	}
+	r.noteInvalidation()
+	typ, sub, _ := strings.Cut(name, "/")
+	for _, other := range vsTagNames {
+		if _, exists := defs[other]; !exists && other != name && !strings.HasPrefix(other, "mark/") {
+			refDef := fmt.Sprintf("%s:%s", typ, sub)
+			r.apiCall(fmt.Sprintf("AddTag(%s,%q)", other, refDef), func() error { return r.e.mgr.AddTag(other, "#fff", refDef) })
+			break
+		}
 	}
 }
 
@@ -681,11 +728,23 @@ func (r *vsRun) invariants() {
 	if msg16 != "" {
 		r.fatalf("%s", msg16)
 	}
+	if r.cfg.focus == "C11" {
+		// graph well-formedness and the referenced indication under generated schedules of tagging jobs
+		tags, _, err := c11State(r.e)
+		if err != nil {
+			r.fatalf("%v", err)
+		}
+		if msg := c11Graph(tags); msg != "" {
+			r.fatalf("%s\ntags:\n%s", msg, c11Render(tags))
+		}
+	}
+	// searches with tag filters and the tags shown for a stream must be right while work is in flight, too
+	r.checkViewTags(true)
 }
 
 // checkViewTags is the view part of C06: searches with tag filters and the
 // tags shown for a stream agree with the ground truth for all streams.
-func (r *vsRun) checkViewTags() {
+func (r *vsRun) checkViewTags(midflight bool) {
 	if r.cfg.focus != "C06" || r.e.parkedCount("convert") > 0 {
 		return
 	}
@@ -716,8 +775,9 @@ func (r *vsRun) checkViewTags() {
 		r.fatalf("view: %v", err)
 	}
 	var truth map[string]map[uint64]bool
+	var vqs map[uint64]*vq.Stream
 	err = r.e.inLoop(func() {
-		truth, _, err = veTruth(streams, defs, convNames, r.e.convData)
+		truth, vqs, err = veTruth(streams, defs, convNames, r.e.convData)
 	})
 	if err != nil {
 		r.fatalf("ground truth: %v", err)
@@ -727,17 +787,111 @@ func (r *vsRun) checkViewTags() {
 		names = append(names, n)
 	}
 	sort.Strings(names)
+	// open finding: conditions of a tag that is still pending are inlined into the search (or evaluated by the
+	// view's prefetch) with a reference time that is not the one they were normalised with, so absolute time
+	// filters are off by the difference; such tags, and tags referencing them, are not asserted while pending
+	skip := map[string]bool{}
+	if midflight && r.open["F-C06-inlined-tag-reference-time"] {
+		for changed := true; changed; {
+			changed = false
+			for _, n := range names {
+				if skip[n] {
+					continue
+				}
+				q, err := query.Parse(defs[n])
+				if err != nil {
+					continue
+				}
+				f := q.Conditions.Features()
+				bad := f.MainFeatures&(query.FeatureFilterTimeAbsolute|query.FeatureFilterTimeRelative) != 0
+				for _, ref := range f.MainTags {
+					if skip[ref] {
+						bad = true
+					}
+				}
+				if bad {
+					skip[n] = true
+					changed = true
+					r.c.Count("excluded_known", 1)
+				}
+			}
+		}
+	}
+	// tags that look at payload directly or through the tags they reference
+	dataDep := map[string]bool{}
+	for changed := true; changed; {
+		changed = false
+		for _, n := range names {
+			if dataDep[n] {
+				continue
+			}
+			q, err := query.Parse(defs[n])
+			if err != nil {
+				continue
+			}
+			f := q.Conditions.Features()
+			dep := f.MainFeatures&query.FeatureFilterData != 0
+			for _, ref := range f.MainTags {
+				dep = dep || dataDep[ref]
+			}
+			if dep {
+				dataDep[n] = true
+				changed = true
+			}
+		}
+	}
+	depth := map[string]int{}
+	for round := 0; round < 8; round++ {
+		for _, n := range names {
+			q, err := query.Parse(defs[n])
+			if err != nil {
+				continue
+			}
+			d := 1
+			for _, ref := range q.Conditions.Features().MainTags {
+				if depth[ref]+1 > d {
+					d = depth[ref] + 1
+				}
+			}
+			depth[n] = d
+		}
+	}
+	anyConv := false
+	for _, vs := range vqs {
+		if len(vs.Conv) != 0 {
+			anyConv = true
+		}
+	}
 	ctx := context.Background()
 	for _, n := range names {
+		if skip[n] {
+			continue
+		}
 		typ, sub, _ := strings.Cut(n, "/")
 		for _, neg := range []bool{false, true} {
 			qs := typ + ":" + sub
 			if neg {
+				// the negation of a pending payload tag is searched as the negated normal form, one disjunct at a
+				// time over all representations; with converter output present that is not the negation of
+				// "matches in some representation" (DESIGN.md 5, C04: negated sequences over several
+				// representations are not defined) - not asserted
+				if anyConv && dataDep[n] {
+					continue
+				}
+				// pending tags are inlined recursively and negated as whole normal forms: the cost is a tower
+				// of products over the reference chain (exponential by construction, C14's text exempts it)
+				if midflight && depth[n] >= 3 {
+					r.c.Count("negated_search_skipped_deep_reference_chain", 1)
+					continue
+				}
 				qs = "-" + qs
 			}
 			q, err := query.Parse(qs + " sort:id")
 			if err != nil {
 				r.fatalf("query %q: %v", qs, err)
+			}
+			if os.Getenv("VERIF_DEBUG_SEARCH") != "" {
+				fmt.Fprintf(os.Stderr, "SEARCH %s defs=%v\n", qs, defs)
 			}
 			var got []uint64
 			_, _, _, err = v.SearchStreams(ctx, q, func(sc StreamContext) error {
@@ -775,12 +929,24 @@ func (r *vsRun) checkViewTags() {
 	for id := range streams {
 		var want []string
 		for _, n := range names {
-			if truth[n][id] {
+			if truth[n][id] && !skip[n] {
 				want = append(want, n)
 			}
 		}
+		var got []string
+		for _, n := range shown[id] {
+			if !skip[n] {
+				got = append(got, n)
+			}
+		}
+		shown[id] = got
 		if fmt.Sprint(shown[id]) != fmt.Sprint(want) {
-			r.fatalf("stream %d is shown with tags %v, the definitions evaluated on current data give %v", id, shown[id], want)
+			var sb strings.Builder
+			for _, n := range names {
+				td := v.tagDetails[n]
+				fmt.Fprintf(&sb, "\n  %s def=%q view: matches=%v uncertain=%v", n, defs[n], sortedKeys(veBits(td.Matches)), sortedKeys(veBits(td.Uncertain)))
+			}
+			r.fatalf("stream %d is shown with tags %v, the definitions evaluated on current data give %v; tag details of the view after prefetching all tags:%s", id, shown[id], want, sb.String())
 		}
 	}
 }
@@ -870,7 +1036,7 @@ func (r *vsRun) finalChecks() {
 	if msg != "" {
 		r.fatalf("%s", msg)
 	}
-	r.checkViewTags()
+	r.checkViewTags(false)
 	if r.cfg.focus == "C10" {
 		v := &vsView{v: r.e.mgr.GetView()}
 		if _, err := v.v.ReferenceTime(); err != nil {
@@ -938,7 +1104,7 @@ func vsScenario(rt *rapid.T, c *vlib.Case, t *testing.T, cfg vsConfig, open map[
 	if err := veInstallConverters(d, cfg.converters); err != nil {
 		rt.Fatalf("converters: %v", err)
 	}
-	r := &vsRun{rt: rt, c: c, cfg: cfg, open: open, tr: vsGenTraffic(rt), kindsDelivered: map[string]bool{}, deliveredCaptures: map[int]bool{}}
+	r := &vsRun{rt: rt, c: c, cfg: cfg, open: open, tr: vsGenTraffic(rt), kindsDelivered: map[string]bool{}, deliveredCaptures: map[int]bool{}, lastDefs: map[string]string{}}
 	r.views[0], r.views[1] = &vsView{}, &vsView{}
 	c.Render(func() any { return map[string]any{"traffic": r.tr.brief(), "history": r.hist} })
 	e, err := veStart(d, false)
@@ -969,6 +1135,7 @@ func vsScenario(rt *rapid.T, c *vlib.Case, t *testing.T, cfg vsConfig, open map[
 	add("conv", cfg.wConv, r.stepConv)
 	add("view", cfg.wView, r.stepView)
 	add("deliver", cfg.wDeliver, r.stepDeliver)
+	add("recreate", cfg.wRecreate, r.stepRecreate)
 	add("hold", 1, r.stepHold)
 	add("start", 2, r.stepStart)
 	add("reset", cfg.wReset, r.stepReset)
@@ -1000,6 +1167,8 @@ func vsScenario(rt *rapid.T, c *vlib.Case, t *testing.T, cfg vsConfig, open map[
 		nontrivial = nontrivial || (r.mergesDone > 0 && r.importsDone >= 2)
 	case "C13":
 		nontrivial = r.heldAcrossMerge
+	case "C11":
+		nontrivial = r.invalWhileTagJob > 0 && r.tagDelivers > 0
 	case "C16":
 		nontrivial = r.kindsDelivered["convert"] && r.importsDone >= 2
 	}
@@ -1017,6 +1186,7 @@ func vsDefaultConfig(focus string) vsConfig {
 	case "C06":
 		cfg.converters = []string{"cva"}
 		cfg.wConv = 1
+		cfg.wRecreate = 1
 	case "C09":
 		cfg.converters = []string{"cva"}
 		cfg.wConv = 2
@@ -1024,6 +1194,8 @@ func vsDefaultConfig(focus string) vsConfig {
 	case "C10", "C13":
 		cfg.wView = 4
 		cfg.wTag = 2
+	case "C11":
+		cfg.wTag, cfg.wView, cfg.wImport, cfg.wRecreate = 8, 0, 2, 2
 	case "C16":
 		cfg.converters = []string{"cva", "cvb"}
 		cfg.wConv = 4
@@ -1044,3 +1216,6 @@ func TestVerifC09(t *testing.T) { vsTest(t, "C09") }
 func TestVerifC10(t *testing.T) { vsTest(t, "C10") }
 func TestVerifC13(t *testing.T) { vsTest(t, "C13") }
 func TestVerifC16(t *testing.T) { vsTest(t, "C16") }
+
+// TestVerifC11Sched: the tag calls of C11 under generated schedules of tagging job completions.
+func TestVerifC11Sched(t *testing.T) { vsTest(t, "C11") }
